@@ -855,6 +855,9 @@ func (s *session) apply(step tf.M) {
 		if src == "tunnel" && !s.tunOn {
 			src = "direct"
 		}
+		// store fault (see plantFault): the creation fails in the middle of taking the committee's nonce pairs
+		restore := s.plantFault(tf.Sub(step, "fault"))
+		defer restore()
 		var o world.Outcome
 		if src == "tunnel" {
 			// MsgTriggerTunnel by the creator of an active, funded tunnel: packet + signing in this transaction
@@ -882,6 +885,13 @@ func (s *session) apply(step tf.M) {
 			if src == "tunnel" {
 				s.flags["tunnelTriggerRej"] = true
 			}
+		}
+		restore()
+		if f := tf.Sub(step, "fault"); len(f) > 0 && !o.OK() {
+			// a creation that failed on the planted fault is a rolled-back creation: nothing of it may remain
+			s.flags["rollback"] = true
+			s.d.W.Step("RequestRollback", tf.M{"created": false, "src": src, "fault": tf.Str(f, "kind", "garbage")}, oc, s.project())
+			return
 		}
 		s.d.W.Step("Request", tf.M{"src": src}, oc, s.project())
 	case "Transition":
@@ -1033,7 +1043,16 @@ func (s *session) apply(step tf.M) {
 			s.armTunnel(ntun > 0)
 		}
 		trBefore := s.trState()
+		// store fault during the end-block's creations (oracle results, tunnel packets) - only in a block in which no
+		// stored attempt is due (a retry hitting the fault would be a failure of the fault, not of a creation) and no
+		// hand-over signing is about to be created
+		restore := func() {}
+		if f := tf.Sub(step, "fault"); len(f) > 0 && trBefore != "pending" && !s.anyDue() {
+			restore = s.plantFault(f)
+			s.flags["rollback"] = true
+		}
 		o := s.r.EndBlock()
+		restore()
 		ret, pen := s.noteEvents(o, true)
 		cpre, cpost, hand := 0, 0, false
 		for _, r := range ret {
@@ -1098,6 +1117,59 @@ func (s *session) apply(step tf.M) {
 
 // oracleRequest files an oracle request with a TSS encoder and the reports that make it resolve at the
 // end of this block; the oracle end-blocker then asks bandtss for a signing (safeCreateSigning).
+// plantFault damages the store record of the head nonce pair of member f.m (kind "garbage": undecodable bytes, the
+// read panics; kind "missing": the record is gone although the queue counts it, the read returns an error).  No input
+// can do this: it is a fault injected below the keeper, so that a signing creation fails AFTER it has taken the pairs of
+// the members before f.m - the situation the rollback clause of C05 is about.  The returned function puts the record
+// back (idempotent).
+func (s *session) plantFault(f tf.M) func() {
+	if len(f) == 0 {
+		return func() {}
+	}
+	k := tf.Int(f, "m", 1)
+	if k < 1 || k > len(s.g.Members) {
+		return func() {}
+	}
+	addr := s.g.Members[k-1].Acc.Addr
+	tk := s.w.App.TSSKeeper
+	q := tk.GetDEQueue(s.r.Ctx, addr)
+	if q.Head >= q.Tail {
+		return func() {}
+	}
+	store := s.r.Ctx.KVStore(s.w.App.GetKey(tsstypes.StoreKey))
+	key := tsstypes.DEStoreKey(addr, q.Head)
+	orig := store.Get(key)
+	if orig == nil {
+		return func() {}
+	}
+	if tf.Str(f, "kind", "garbage") == "missing" {
+		store.Delete(key)
+	} else {
+		store.Set(key, []byte{0xff, 0xff, 0xff, 0x07})
+	}
+	done := false
+	return func() {
+		if done {
+			return
+		}
+		done = true
+		// the record goes back unless the pair was consumed meanwhile (possible only if the code ignored the fault)
+		if q2 := tk.GetDEQueue(s.r.Ctx, addr); q2.Head == q.Head {
+			s.r.Ctx.KVStore(s.w.App.GetKey(tsstypes.StoreKey)).Set(key, orig)
+		}
+	}
+}
+
+// anyDue: some stored signing attempt expires at or before the current height
+func (s *session) anyDue() bool {
+	for _, e := range s.w.App.TSSKeeper.GetSigningExpirations(s.r.Ctx) {
+		if sa, err := s.w.App.TSSKeeper.GetSigningAttempt(s.r.Ctx, e.SigningID, e.SigningAttempt); err == nil && sa.ExpiredHeight <= uint64(s.r.Height) {
+			return true
+		}
+	}
+	return false
+}
+
 func (s *session) oracleRequest() {
 	k := s.w.App.OracleKeeper
 	msg := oracletypes.NewMsgRequestData(oracletypes.OracleScriptID(world.ScriptOK1), []byte("cd"), 1, 1, "tsssigning",
@@ -1208,7 +1280,12 @@ func RandomScript(rng *rand.Rand, mode string) tf.Script {
 				if tunnel && rng.Intn(3) == 0 {
 					src = "tunnel"
 				}
-				steps = append(steps, tf.M{"e": "Request", "src": src})
+				rq := tf.M{"e": "Request", "src": src}
+				if rng.Intn(7) == 0 {
+					// a store fault hits one member's head pair while the committee's pairs are taken
+					rq["fault"] = tf.M{"m": 1 + rng.Intn(NMember), "kind": []string{"garbage", "missing"}[rng.Intn(2)]}
+				}
+				steps = append(steps, rq)
 				if trans && b > transAt+1 {
 					reqs++ // the incoming group is asked too (best effort)
 				}
@@ -1283,7 +1360,11 @@ func RandomScript(rng *rand.Rand, mode string) tf.Script {
 				reqs++
 			}
 		}
-		steps = append(steps, tf.M{"e": "EndBlock", "npre": npre, "ntun": ntun, "funded": funded})
+		eb := tf.M{"e": "EndBlock", "npre": npre, "ntun": ntun, "funded": funded}
+		if (npre > 0 || (ntun > 0 && funded)) && rng.Intn(4) == 0 {
+			eb["fault"] = tf.M{"m": 1 + rng.Intn(NMember), "kind": []string{"garbage", "missing"}[rng.Intn(2)]}
+		}
+		steps = append(steps, eb)
 	}
 	// run out the clock so that every signing terminates
 	for i := 0; i < maxAtt*3+1; i++ {
